@@ -197,6 +197,46 @@ func enumerateC09(t *testing.T, c *collector, workers int) bool {
 			}
 		}
 	}
+	// thorough tier: every ordered pair of single edits of every base message (the second edit indexes the document as it is
+	// after the first)
+	if *fTier == "thorough" {
+		for bi := range bases {
+			b := &bases[bi]
+			probeRes := Run(t, mk(b.msg()))
+			if probeRes.HarnessErr != "" || len(probeRes.Tasks) == 0 {
+				continue
+			}
+			ne, na := editCounts(probeRes.Tasks[0].Sent.XML)
+			type ed struct {
+				op string
+				i  int
+			}
+			var eds []ed
+			for _, op := range ops {
+				n := ne
+				if strings.HasSuffix(op, "Attr") {
+					n = na
+				}
+				for i := 0; i < n; i++ {
+					eds = append(eds, ed{op, i})
+				}
+			}
+			for _, e1 := range eds {
+				for _, e2 := range eds {
+					scen++
+					if workers > 0 && scen%workers != *fWorker%workers {
+						continue
+					}
+					m := b.msg()
+					m.Tamper = []Tamper{{Op: e1.op, A: e1.i}, {Op: e2.op, A: e2.i}}
+					if run(mk(m)) {
+						return true
+					}
+					c.out.Pairs++
+				}
+			}
+		}
+	}
 	// SP metadata
 	w0 := c10BaseWorld(0)
 	for si := range w0.SPs {
